@@ -48,9 +48,9 @@ type c07Layers struct {
 
 func init() {
 	register(&Prop{ID: "C07", Run: c07Run,
-		Rule: "pairs of root containers over path-safe keys (two key pools, one with keys such as a / a-b / aB / a_ whose paths interleave with a. and a[ in byte order): R is L after 0-4 random local edits (key added/removed, leaf changed, kind changed, list edited), or an independent document, or a copy, or a copy differing in exactly one scalar by a confusable pair (same number under another Go type, neighbouring integers beyond 2^53, a value and its printed text); overlay cases hold 0-3 named layers per side; 900 pairs in which a composite subtree of L occurs at two or three positions and is ONE node object there (R lacks a key above it, is empty, independent, or a near miss; sides swapped one time in three); 500 pairs whose L is diffed, edited in place 1-4 times (AddValue / Remove / Set / MustSet / Append / Clear through nested builders, Lookup, the root's path API) and diffed again against the content it must hold then and against a freshly built document; 700 pairs whose documents hold IMMUTABLE nodes: one composite position in three (lists and containers, either side or both) is attached as the sealed view (ListBuilder.Seal / ContainerBuilder.Seal) of its builder, one time in three the sealed roots are what Diff is given, one time in three L is edited in between through the kept builders; the sequence returned by the first call is re-read after twenty later calls; domdiff cases go through the pipeline template engine. A pair is non-trivial when Diff(L,R) is non-empty or both documents have more than one node; distinct = distinct canonical case JSON (hash).",
+		Rule: "pairs of root containers over path-safe keys (two key pools, one with keys such as a / a-b / aB / a_ whose paths interleave with a. and a[ in byte order): R is L after 0-4 random local edits (key added/removed, leaf changed, kind changed, list edited), or an independent document, or a copy, or a copy differing in exactly one scalar by a confusable pair (same number under another Go type, neighbouring integers beyond 2^53, a value and its printed text); overlay cases hold 0-3 named layers per side; 900 pairs in which a composite subtree of L occurs at two or three positions and is ONE node object there (R lacks a key above it, is empty, independent, or a near miss; sides swapped one time in three); 500 pairs whose L is diffed, edited in place 1-4 times (AddValue / Remove / Set / MustSet / Append / Clear through nested builders, Lookup, the root's path API) and diffed again against the content it must hold then and against a freshly built document; 700 pairs whose documents hold IMMUTABLE nodes: one composite position in three (lists and containers, either side or both) is attached as the sealed view (ListBuilder.Seal / ContainerBuilder.Seal) of its builder, one time in three the sealed roots are what Diff is given, one time in three L is edited in between through the kept builders; the sequence returned by the first call is re-read after twenty later calls; 1200 pairs (plus overlay and domdiff cases) whose member names are arbitrary TEXT free of the path metacharacters '.', '[' and ']' (names with %, #, :, /, *, \\, white space, non-ASCII characters, numerals), lists frequent; domdiff cases go through the pipeline template engine. A pair is non-trivial when Diff(L,R) is non-empty or both documents have more than one node; distinct = distinct canonical case JSON (hash).",
 		Assumptions: []string{"scalars are NaN-free and -0-free, so cmp.Equal on leaves coincides with equality of (Go type, fmt.Sprint) pairs",
-			"keys are non-empty over [A-Za-z0-9_-] (path-safe); Lean's String order (code points) equals Go's byte order on these ASCII paths",
+			"keys are non-empty and path-safe: free of the three path metacharacters '.', '[' and ']' (most pools are over [A-Za-z0-9_-]; the text pools hold any other characters, valid UTF-8); Lean's String order (code points) equals Go's byte order on valid UTF-8",
 			"the statement's 'Delete immediately followed by Adds' is read as the quantifier text spells it out: the sequence is sorted by path and, among equal paths, the Delete precedes the Add; with a sibling key such as a-b or aB the block Delete a / Add a[0] is not contiguous after sorting (Delete a, Add a-b, Add a[0])"}})
 	evals["C07"] = c07Eval
 	shrinkers["C07"] = shrinkJSON
@@ -211,6 +211,77 @@ func c07Run(c *Ctx) {
 	for i := 0; i < c.N(150); i++ {
 		c.Tick()
 		c.Do("domdiff", c07GenPair(r))
+	}
+	c07RunText(c)
+}
+
+// c07GenText: member names as TEXT.  A flatten-style path carries a member name unchanged, so any name free of the
+// three path metacharacters '.', '[' and ']' is path-safe: names with '%', '#', ':', '/', '*', '\\', white space,
+// non-ASCII characters, numerals (the pools of harness/c08.go).  Lists are frequent, so that such a name often lies on
+// the way to a list whose leaves are reported.
+func c07GenText(r *rand.Rand) *DocGen {
+	g := c07Gen(r)
+	if r.Intn(2) == 0 {
+		g.Keys = c08KeysOdd
+	} else {
+		g.Keys = c08TextKeys(r)
+	}
+	g.PList += 0.15
+	return g
+}
+
+func c07GenPairWith(r *rand.Rand, g *DocGen) c07Pair {
+	l := g.Doc(r)
+	var rr W
+	switch k := r.Intn(10); {
+	case k == 0:
+		rr = g.Doc(r)
+	case k == 1:
+		rr = deepCopyW(l)
+	default:
+		rr = deepCopyW(l)
+		for i, n := 0, 1+r.Intn(4); i < n; i++ {
+			rr = g.Mutate(r, rr)
+		}
+	}
+	if r.Intn(2) == 0 {
+		l, rr = rr, l
+	}
+	return c07Pair{L: l, R: rr}
+}
+
+// c07RunText: pairs, overlay documents and domdiff calls over documents whose member names are arbitrary text.
+func c07RunText(c *Ctx) {
+	r := c.Rng
+	for i := 0; i < c.N(1200); i++ {
+		c.Tick()
+		c.Dist("pair:text-member-names")
+		c.Do("pair", c07GenPairWith(r, c07GenText(r)))
+	}
+	names := []string{"base", "dev", "prod"}
+	for i := 0; i < c.N(120); i++ {
+		c.Tick()
+		g := c07GenText(r)
+		lm, rm := map[string]any{}, map[string]any{}
+		for _, n := range names {
+			switch r.Intn(5) {
+			case 0:
+				lm[n] = g.Doc(r)
+			case 1:
+				rm[n] = g.Doc(r)
+			case 2:
+			default:
+				d := g.Doc(r)
+				lm[n] = d
+				rm[n] = g.Mutate(r, d)
+			}
+		}
+		c.Dist("overlay:text-member-names")
+		c.Do("overlay", c07Layers{map[string]any{"m": lm}, map[string]any{"m": rm}})
+	}
+	for i := 0; i < c.N(40); i++ {
+		c.Tick()
+		c.Do("domdiff", c07GenPairWith(r, c07GenText(r)))
 	}
 }
 
